@@ -30,6 +30,7 @@ THEOREMS = [
     "PyTrie.Props.NonVacuity.delete_refines_witness",
     "PyTrie.Props.NonVacuity.t1_storedD",
     "PyTrie.Props.Raw.history_is_world_run",
+    "PyTrie.Props.Raw.history_get",
 ]
 RULE = ("histories of set/setitem/set-to-empty/delete/delitem and squash_changes batches (committed and aborted) "
         "over crafted and random prefix-sharing key universes (empty key, prefixes, extensions, mid-path "
